@@ -1,6 +1,7 @@
 //! verif-harness: runs the *implementation* (current /repo working tree, hooks on) on generated
 //! inputs and writes case lines (inputs + observed outputs) for the Gallina checkers.
 mod alloc;
+mod framing;
 mod rng;
 
 use std::io::Write;
@@ -32,6 +33,17 @@ fn main() {
                 "{{\"ops\":{{\"allocate\":{},\"first_vacant\":{},\"deallocate\":{},\"use_value\":{},\"is_used\":{},\"clear\":{},\"interval_count\":{}}},\"impl_panics\":{},\"max_intervals\":{},\"allocate_exhausted\":{}}}",
                 st.ops[0], st.ops[1], st.ops[2], st.ops[3], st.ops[4], st.ops[5], st.ops[6], st.panics, st.max_intervals, st.full
             );
+        }
+        "framing" => {
+            let mut st = framing::Stats::new();
+            let thorough = args.iter().any(|a| a == "--thorough");
+            framing::generate(seed, n, thorough, &mut lines, &mut st);
+            stats_json = st.json();
+        }
+        "framing-replay" => {
+            let mut st = framing::Stats::new();
+            let nums: Vec<u64> = args[2..].iter().filter_map(|s| s.parse().ok()).collect();
+            lines.push(framing::replay(&nums, &mut st));
         }
         "alloc-replay" => {
             let mut st = alloc::Stats { ops: [0; 7], panics: 0, max_intervals: 0, full: 0 };
